@@ -107,14 +107,21 @@ def attempt(prop, ob):
                 return {"reproduced": False, "method": "concrete playback limited to 3 refutations per run; see the other replay files of this run"}
             _playbacks_done += 1
             return kani_playback(ob.extra["feature"], ob.extra["harness"], full=ob.extra.get("harness_full"))
-        if prop == "C05" and ob.engine == "V":
+        if prop in ("C10", "C20") and ob.engine in ("B", "V", "K"):
+            bin_name, feats = ("replay_c10", ["cw12"]) if prop == "C10" else ("replay_c20", [])
+            rc, so, se, wall = _run_native(bin_name, [], features=feats)
+            m = re.search(r"^COUNTEREXAMPLE (.*)$", so, re.M)
+            if m:
+                return {"reproduced": True, "method": "native enumeration against the real functions (bin %s)" % bin_name, "input": json.loads(m.group(1)), "wall_s": round(wall, 1)}
+            return {"reproduced": False, "method": "native enumeration (bin %s) found no failing input within its bound" % bin_name, "stdout": so[-800:]}
+        if prop in ("C05",) and ob.engine in ("V", "B"):
             rc, so, se, wall = _run_native("replay_c05", [])
             m = re.search(r"^COUNTEREXAMPLE (.*)$", so, re.M)
             if m:
                 return {"reproduced": True, "method": "native enumeration of small name-list tuples against the real sylvia::utils::assert_no_intersection (catch_unwind) vs a direct O(n^2) disjointness test",
                         "input": json.loads(m.group(1)), "cmd": "./check C05 --replay <this file>  (runs /verif/replay bin replay_c05 against the repository)", "wall_s": round(wall, 1)}
             return {"reproduced": False, "method": "native enumeration found no failing tuple within its bound", "stdout": so[-1500:], "stderr": se[-1500:]}
-        if prop == "C11" and ob.engine == "V":
+        if prop in ("C11", "C02") and ob.engine in ("V", "B"):
             feats = []
             m = re.search(r"into_response\.([a-z0-9_+]+)\.", ob.name)
             if m:
